@@ -1280,3 +1280,40 @@ def combinators_keep_their_members(ctx):
             (f"given A and a nested {bad[0]} of B and C, {c.name} stores {bad[1]}: {c.name}[{bad[0]}[B, C], A] becomes a flat combination of A, B and C - an intersection inside a union turns into alternatives, and a nested union no longer compares MORE than its own member" if bad else ""),
         )
     ctx.require(n >= 2, "expected the union and the intersection constructors")
+
+
+def resolution_functions_are_not_memoised(ctx):
+    """The subtype test, the order function, the layer sorter and the key function consult hooks whose answers can
+    change (ABC.register, a method added to a class) and are asked by every function object: none of them, nor what
+    they call, is wrapped in a process-wide memo (lru_cache / cache), as a decorator or as `name = lru_cache(..)(f)`."""
+    from .c14 import get_callgraph_for
+
+    repo = ctx.repo
+    roots = [A.subclasscheck_fn(repo), A.typeorder_fn(repo), A.layer_sorter(repo), A.subtler_fn(repo)]
+    cg = get_callgraph_for(ctx)
+    clo = cg.closure(roots)
+    names = {f.name for f in clo}
+    MEMO = ("lru_cache", "cache", "cached")
+    bad = None
+    for f in clo:
+        ctx.touch(f)
+        for d in f.node.decorator_list:
+            nm = dotted(d.func) if isinstance(d, ast.Call) else dotted(d)
+            if nm and nm.split(".")[-1] in MEMO:
+                bad = bad or (f.loc(d), f"`{f.name}` is decorated with `{short(d, 30)}`")
+    for mod in repo.modules.values():
+        for st in ast.walk(mod.tree):
+            if isinstance(st, ast.Assign) and isinstance(st.value, ast.Call):
+                v = st.value
+                inner = v.func
+                wrapped = [a for a in v.args if isinstance(a, ast.Name) and a.id in names]
+                fn_name = dotted(inner.func) if isinstance(inner, ast.Call) else dotted(inner)
+                if wrapped and fn_name and fn_name.split(".")[-1] in MEMO:
+                    bad = bad or (f"{mod.rel}:{st.lineno}", f"`{short(st, 50)}` wraps `{wrapped[0].id}` in a memo")
+    ctx.ob(
+        "mro:resolution-functions-not-memoised",
+        bad[0] if bad else roots[0].loc(),
+        f"none of the {len(clo)} functions behind the subtype test, the order function, the layer sorter and the key function is memoised process-wide",
+        bad is None,
+        (f"{bad[1]}: the answer for a pair of types is frozen the first time any function asks, so a class registered with an ABC (or given a method) later is never matched by functions built afterwards, and equal-but-different arguments share a key" if bad else ""),
+    )
